@@ -78,12 +78,15 @@ Init == /\ model \in ModelsC
         /\ broad \in BOOLEAN                  \* Stark / MSE: electron density and temperature positive
         \* window classes: line inside / cut by the lower or upper edge / outside / 3 bins of 20 nm, and the unresolved edge
         \* cases: a single bin holding part of the line, only the line's tail reaching the first (last) bin of a coarse grid
-        /\ window \in {"inside", "straddle_low", "straddle_high", "outside", "coarse", "one_bin_partial", "tail_in_first_bin", "tail_in_last_bin"}
+        \* and bins a few line widths wide: the line centre on a bin boundary (bins of 8 sigma), one sigma above a boundary (bins of
+        \* 6 sigma), and 8 sigma below a boundary of 25-sigma bins (only the far wing reaches the next bin)
+        /\ window \in {"inside", "straddle_low", "straddle_high", "outside", "coarse", "one_bin_partial", "tail_in_first_bin", "tail_in_last_bin",
+                       "centre_on_boundary", "centre_near_boundary", "wing_over_boundary"}
         /\ (model \notin {"stark", "mse"} => broad)
         /\ regime \in (IF model = "stark" /\ broad THEN {"doppler", "mixed"} ELSE {"doppler"})
         /\ view \in (IF model = "mse" THEN {1} ELSE 1..5)
         /\ emitter \in (IF model \in {"gaussian", "multiplet", "zeeman_triplet"} THEN {"d", "c"} ELSE {"d"})
-        /\ (view # 1 \/ emitter # "d" => window \in {"inside", "straddle_low", "one_bin_partial"})
+        /\ (view # 1 \/ emitter # "d" => window \in {"inside", "straddle_low", "one_bin_partial", "centre_on_boundary"})
 Next == UNCHANGED vars
 Spec == Init /\ [][Next]_vars
 
